@@ -17,7 +17,8 @@ import (
 // timeout classes: real duration = ticks * tickDur
 const tickDur = 20 * time.Millisecond
 
-var tmoTicks = []int{3, 8, 3000} // short (60ms), medium (160ms), long (60s: never fires in a script)
+// short (60ms), medium (160ms), long (60s: never fires in a script), zero, negative (-1s): time.After(d) fires at once for d <= 0
+var tmoTicks = []int{3, 8, 3000, 0, -50}
 
 const (
 	opSub      = "sub"
